@@ -133,7 +133,9 @@ PortStrs == { <<sch, "sl", "sl">> \o h \o p \o t :
                 h \in {<<"good">>, <<"evil">>, <<"evil", "at", "good">>, <<"good", "at", "evil">>, <<"seg", "dot", "good">>, <<"v6">>, <<"v6map">>, <<"good", "at", "v6">>},
                 p \in {<<>>, <<"col">>, <<"col", "p80">>, <<"col", "p443">>, <<"col", "port">>, <<"col", "p80", "col", "p443">>, <<"col", "p443", "at", "good">>},
                 t \in {<<>>, <<"sl">>, <<"sl", "seg">>, <<"q", "seg">>, <<"h">>, <<"bs", "evil">>} }
-Init == \E s \in Strs \cup PortStrs, wl \in WLs : c = [s |-> s, wl |-> wl]
+\* (the grammar strings are enumerated as functions 1..n -> Tokens: TLC steps through that set without building it)
+Init == \/ \E n \in 1..MaxLen : \E s \in [1..n -> Tokens], wl \in WLs : c = [s |-> s, wl |-> wl]
+        \/ \E s \in PortStrs, wl \in WLs : c = [s |-> s, wl |-> wl]
 Next == UNCHANGED c
 C06_NoOpenRedirect == Impl_Valid(c.s, c.wl) => Safe(BrowserResolve(c.s), c.wl)
 
